@@ -49,7 +49,7 @@ tvars == <<vars, l, cid, cur, mon, viol, nviol, vflag, cvars, ncases, nnull, nin
 
 MaxViolPerStream == 40
 
-NoStream == [n |-> 0, elems |-> <<>>, chars |-> <<>>, sync |-> <<>>, bnd |-> <<>>, held |-> <<>>]
+NoStream == [n |-> 0, elems |-> <<>>, chars |-> <<>>, sync |-> <<>>, bnd |-> <<>>, held |-> <<>>, cw |-> <<>>]
 Cur0 == [sid |-> "", at |-> 0, ref |-> <<>>, has |-> FALSE, nv |-> 0]
 Mon0 == [sid |-> "", isRef |-> FALSE, known |-> FALSE, d |-> <<>>, pos |-> 0]
 
